@@ -14,6 +14,7 @@ from ..refs import text as R1
 
 ZONES = ["Europe/Berlin", "America/New_York", "Asia/Kolkata", "Australia/Lord_Howe", "America/Sao_Paulo", "Pacific/Apia", "Africa/Cairo",
          "Europe/London", "Asia/Tokyo", "America/Argentina/Buenos_Aires", "Europe/Dublin", "Pacific/Chatham"]
+ALIAS_ZONES = ["/Europe/Berlin", "/America/New_York", "Eastern Standard Time", "W. Europe Standard Time", "Tokyo Standard Time", "GMT Standard Time"]
 WORDS = ["meeting", "Lunch", "x", "Café", "日本語", "naïve", "ok", "A B", "1:1", "50%", "a=b", "\U0001F600", "Österreich", "tab\there", "q'uote", "dash-ed", "zero\ufeffwidth", "\ufeffbom-first", "nb\u00a0sp", "ls\u2028ps\u2029", "c1\u0085",
          # text that is not in Unicode normal form C: it has to come back code point for code point
          "de\u0301compose\u0301", "\u212bngstro\u0308m", "\u1112\u1161\u11ab", "\u0958\u2126"]
@@ -82,6 +83,9 @@ class G:
             return "UTC"
         if k < 5 and allow_custom and self.custom_ids:
             return "custom:" + r.choice(self.custom_ids)
+        if not self.api_safe and r.randrange(10) == 0:
+            # ids other producers write for the same zones: a leading slash, Windows display names
+            return "zone:" + r.choice(ALIAS_ZONES)
         return "zone:" + r.choice(ZONES)
 
     def year(self, early_ok=True):
@@ -164,7 +168,9 @@ class G:
             elif k == 1:
                 props.append(("DURATION", (), ("td", 86400) if start[0] == "d" else self.td()))
             if r.randrange(3) == 0:
-                props.append(("COMPLETED", (), self.dt("UTC")))
+                # (a floating COMPLETED is not what the RFC wants, but it is a value the library takes and writes as given - unlike
+                #  DTSTAMP/CREATED/LAST-MODIFIED, whose conversion to UTC in add() is documented, S7)
+                props.append(("COMPLETED", (), self.dt("UTC") if r.randrange(4) else self.dt(None)))
             if r.randrange(3) == 0:
                 props.append(("PERCENT-COMPLETE", (), ("int", r.randrange(0, 101))))
         for _ in range(r.randrange(0, 4)):
@@ -499,6 +505,26 @@ def py_value(v):
     raise ValueError(v)
 
 
+def as_subclass(value):
+    from datetime import date, datetime, timedelta
+
+    class VerifDatetime(datetime):
+        pass
+
+    class VerifDate(date):
+        pass
+
+    class VerifTimedelta(timedelta):
+        pass
+    if type(value) is datetime:
+        return VerifDatetime(value.year, value.month, value.day, value.hour, value.minute, value.second, value.microsecond, tzinfo=value.tzinfo, fold=value.fold)
+    if type(value) is date:
+        return VerifDate(value.year, value.month, value.day)
+    if type(value) is timedelta:
+        return VerifTimedelta(days=value.days, seconds=value.seconds, microseconds=value.microseconds)
+    return value
+
+
 SETTERS = {"VEVENT": {"DTSTART": "DTSTART", "DTEND": "DTEND", "DURATION": "DURATION", "DTSTAMP": "DTSTAMP", "LAST-MODIFIED": "LAST_MODIFIED"},
            "VTODO": {"DTSTART": "DTSTART", "DUE": "DUE", "DURATION": "DURATION", "DTSTAMP": "DTSTAMP", "LAST-MODIFIED": "LAST_MODIFIED"},
            "VJOURNAL": {"DTSTART": "DTSTART", "DTSTAMP": "DTSTAMP"},
@@ -573,6 +599,8 @@ def build(model, setters=None):
             setattr(comp, attr, py_value(v))
         else:
             value = py_value(v)
+            if setters is not None and v[0] in ("d", "dt", "td") and setters.randrange(6) == 0:
+                value = as_subclass(value)          # a date/datetime/timedelta *subclass* instance (what pandas or arrow hand out) is such a value too
             if setters is not None and pname.upper() in ("DTSTAMP", "CREATED", "LAST-MODIFIED") and v[0] == "dt" and v[7] == "UTC" and setters.randrange(2):
                 # the same instant in another zone: add() must convert it to UTC (S7)
                 value = value.astimezone(vals.tzinfo_for(setters.choice(("zone:Asia/Tokyo", "zone:America/New_York", "zone:Australia/Lord_Howe"))))
